@@ -19,7 +19,7 @@ RULE = ("case = history: (unique keys, key dtype, modulus, initial value: defaul
 ASSUMPTIONS = ["moduli are representable in the key dtype and small (one bucket per residue is allocated)"]
 ANCHORS = ["hashtable.py::Counter.count", "hashtable.py::Counter.__init__", "raggedshape.py::ViewBase.ravel_multi_index", "raggedshape.py::RaggedView._get_flat_indices_fast",
            "raggedshape.py::ViewBase.empty_rows_removed", "hashtable.py::HashTable.__getitem__"]
-FLOOR_TAGS = ["init:default", "init:scalar0", "init:scalar", "init:array", "init:array-fractional", "init:array-uint64", "batch:empty", "batch:nokey", "batch:onlykeys", "batch:mixed", "batch:heavy", "batch:collide",
+FLOOR_TAGS = ["batch:array-protocol-only", "init:default", "init:scalar0", "init:scalar", "init:array", "init:array-fractional", "init:array-uint64", "batch:empty", "batch:nokey", "batch:onlykeys", "batch:mixed", "batch:heavy", "batch:collide",
               "batch:wide", "batch:pylist", "batch:run-length-encoded", "batch:othersign", "batch:huge", "keys>=33", "mod:1", "mod:None", "mod:explicit", "state:first-hit-on-scalar0", "state:first-hit-on-scalar", "state:array", "no-hit-call"]
 FLOOR_MONITORS = ["c12:caller-keys", "c12:batch", "c12:twin-read-at-end", "c12:twin-one-batch", "c12:twin-resplit", "c12:twin-modulus", "c12:twin-sorted"]
 FP_STRICT = True       # a floating-point event inside the library that the dense computation does not have is a violation (shard.FpMonitor)
@@ -59,10 +59,22 @@ def expand(b, case):
     return b
 
 
+class _Column:
+    """an array_like that follows numpy's conversion protocol and nothing else (no length, no indexing): a lazily decoded column of a file"""
+
+    def __init__(self, a):
+        self._a = a
+
+    def __array__(self, dtype=None, copy=None):
+        return self._a if dtype is None else self._a.astype(dtype)
+
+
 def samples_of(b, kd):
     if b.get("pylist"):
         return tuple(b["samples"]) if len(b["samples"]) % 2 else list(b["samples"])      # a python list or a tuple
     arr = np.array(b["samples"], dtype=b.get("sdtype") or (kd if kd else np.int64))
+    if b.get("as_column"):
+        return _Column(arr)
     if b.get("as_rla") and len(arr):
         return CTX.lib.RunLengthArray.from_array(arr)        # a run-length encoded batch (accepted: it converts to its dense form)
     return arr
@@ -98,6 +110,8 @@ def run(case):
             tags.append("batch:pylist")
         if b.get("as_rla"):
             tags.append("batch:run-length-encoded")
+        if b.get("as_column"):
+            tags.append("batch:array-protocol-only")
         s = b["samples"]
         nh = sum(1 for x in s if x in model)
         if nh == 0:
@@ -299,6 +313,8 @@ def gen_history(rng, tier, kd="pick", init=None, mod="pick", nb=None):
         b["samples"] = s
         if kind not in ("wide",) and not b.get("as_rla") and rng.random() < 0.2 and all(-2 ** 63 <= x < 2 ** 63 for x in s) and kd != "uint64":
             b["pylist"] = True
+        elif not b.get("as_rla") and rng.random() < 0.12:
+            b["as_column"] = True
         batches.append(b)
     total = sum(len(b["samples"]) for b in batches)
     perm = list(range(total))
